@@ -193,7 +193,7 @@ def gen_firm_case(ctx):
     if rng.random() < 0.05:
         alpha = rng.choice([Fraction(0), Fraction(1), Fraction(-1, 2), Fraction(3, 2)])
         bad.append("alpha")
-    d = rng.choice([0, 0, Fraction(1, 2), 1, 2, INF])
+    d = rng.choice([0, 0, Fraction(1, 2), 1, 2, INF, None])
     if rng.random() < 0.04:
         d = Fraction(-1, 2)
         bad.append("discount")
@@ -214,7 +214,7 @@ def gen_firm_case(ctx):
 
 
 def firm_kwargs(c):
-    kw = {"discount_distance": float(c["d"]), "threshold_assignment": c["assign"]}
+    kw = {"discount_distance": None if c["d"] is None else float(c["d"]), "threshold_assignment": c["assign"]}
     if c["rd"] is not None:
         kw["reduce_dims"] = c["rd"]
     if c["pd"] is not None:
@@ -240,14 +240,14 @@ def firm_full(ctx):
         c = gen_firm_case(ctx)
         impl = core.call_impl(CAT.firm, c["fcst"], c["obs"], float(c["alpha"]), c["ths"], c["wts"], **firm_kwargs(c))
         m = ctx.model("c12_firm", enc_list([enc_arr(c["fcst"]), enc_arr(c["obs"]), enc_num(c["alpha"]), enc_list([enc_arr(t) for t in c["ths"]]),
-                                            enc_list([enc_arr(t) for t in c["wts"]]), enc_num(c["d"]), enc_dimspec(c["rd"]), enc_dimspec(c["pd"]),
+                                            enc_list([enc_arr(t) for t in c["wts"]]), enc_opt(c["d"], enc_num), enc_dimspec(c["rd"]), enc_dimspec(c["pd"]),
                                             enc_opt(c["w"], enc_arr), enc_str(c["assign"])]))
         desc = firm_desc(c)
         nontrivial = impl[0] == "ok" and bool(np.isfinite(impl[1]["firm_score"].values).any())
         ctx.case(desc, nontrivial)
         ctx.count("firm:" + ("ok" if impl[0] == "ok" else impl[1]))
         ctx.count("firm:assign=" + c["assign"])
-        ctx.count("firm:discount=" + ("0" if c["d"] == 0 else "inf" if c["d"] == INF else "finite"))
+        ctx.count("firm:discount=" + ("none" if c["d"] is None else "0" if c["d"] == 0 else "inf" if c["d"] == INF else "finite"))
         for b in c["bad"]:
             ctx.count("firm:malformed=" + b)
         if any(isinstance(t, xr.DataArray) for t in c["ths"]):
@@ -264,29 +264,13 @@ def firm_full(ctx):
         r = impl[1]
         # firm_score = overforecast + underforecast per case (before averaging); reduced = NaN-skipping mean of weight * per-case
         if True:
-            st, pc = core.call_impl(CAT.firm, c["fcst"], c["obs"], float(c["alpha"]), c["ths"], c["wts"], discount_distance=float(c["d"]),
-                                    threshold_assignment=c["assign"], preserve_dims="all")
+            st, pc = core.call_impl(CAT.firm, c["fcst"], c["obs"], float(c["alpha"]), c["ths"], c["wts"],
+                                    discount_distance=None if c["d"] is None else float(c["d"]), threshold_assignment=c["assign"], preserve_dims="all")
             if st == "ok":
                 for v in FVARS:
                     check_mean_of_cases(ctx, "firm " + v, pc[v], c["w"], r[v], desc)
                 if not np.allclose(pc["firm_score"].values, (pc["overforecast_penalty"] + pc["underforecast_penalty"]).values, rtol=0, atol=1e-9, equal_nan=True):
                     ctx.violation("firm_score != overforecast_penalty + underforecast_penalty", desc, "sum", str(pc["firm_score"].values.tolist())[:200])
-    # documented: discount_distance=None means no discounting
-    c = None
-    for _ in range(50):
-        c = gen_firm_case(ctx)
-        if not c["bad"] and c["d"] == 0:
-            break
-    if c is not None and not c["bad"]:
-        kw = firm_kwargs(c)
-        ref = core.call_impl(CAT.firm, c["fcst"], c["obs"], float(c["alpha"]), c["ths"], c["wts"], **kw)
-        kw["discount_distance"] = None
-        got = core.call_impl(CAT.firm, c["fcst"], c["obs"], float(c["alpha"]), c["ths"], c["wts"], **kw)
-        if ref[0] == "ok":
-            okk = got[0] == "ok" and all(np.allclose(got[1][v].values, ref[1][v].values, equal_nan=True) for v in FVARS)
-            if not okk:
-                ctx.violation("firm(discount_distance=None) is documented to mean no discounting", dict(firm_desc(c), discount_distance=None),
-                              "same as discount_distance=0", str(got[1])[:120], finding_key="firm-discount-none")
 
 
 def check_mean_of_cases(ctx, fn, per_case, weights, result, desc):
@@ -534,7 +518,7 @@ def rms_full(ctx):
             okk = got[0] == "ok" and np.allclose(np.asarray(got[1]), np.asarray(impl[1]), equal_nan=True)
             if not okk:
                 ctx.violation("risk_matrix_score depends on the identity (not the value) of the severity_dim string", desc,
-                              str(np.asarray(impl[1]).tolist())[:120], str(got[1])[:120], finding_key="rms-severity-dim-identity")
+                              str(np.asarray(impl[1]).tolist())[:120], str(got[1])[:120])
 
 
 # ------------------------------------------------------------------------------------------
@@ -614,19 +598,15 @@ def wfs_one(ctx, EM, M, aw, ps, sevs, bad=None):
     desc = {"fn": "weights_from_warning_scaling", "scaling_matrix": M, "assessment_weights": aw, "severity_coords": sevs, "prob_threshold_coords": ps}
     ctx.case(desc, impl[0] == "ok")
     ctx.count("wfs:" + ("ok" if impl[0] == "ok" else impl[1]) + (":" + bad if bad else ""))
+    ok, why = compare_matrix(impl, m)
+    if not ok:
+        ctx.tie_fail("weights_from_warning_scaling vs line-by-line model: " + why, desc, str(impl[1])[:300], str(m)[:300])
     ms = ctx.model("c12_wfs", enc_list(arg + [enc_bool(True)]))
     ok_spec, why_spec = compare_matrix(impl, ms)
-    if ok_spec:
-        return impl
-    # the implementation deviates from the specification: is it exactly the recorded deviation (= the line-by-line model of the
-    # present algorithm, inside the listed condition)?
-    ok_code, why_code = compare_matrix(impl, m)
-    n_prob = len(M) - 1
-    mx = max([v for r in M for v in r] + [0])
-    key = "scaling-lowest-index-init" if (ok_code and max(mx, len(aw)) < n_prob) else None
-    ctx.violation("weights_from_warning_scaling differs from the specification (the weight of a level is dropped when its crossover row index "
-                  "is >= max(levels, len(assessment_weights)) + 1): " + why_spec, desc, str(ms)[:300],
-                  str(impl[1].values.tolist() if impl[0] == "ok" else impl[1])[:300], finding_key=key)
+    if not ok_spec:
+        ctx.violation("weights_from_warning_scaling differs from the specification (weight of level l at the decision points where l is reached "
+                      "strictly lower than in every column to the left): " + why_spec, desc, str(ms)[:300],
+                      str(impl[1].values.tolist() if impl[0] == "ok" else impl[1])[:300])
     return impl
 
 
@@ -726,7 +706,43 @@ def guard_boundaries(ctx):
     ctx.count("guard_boundary_probes", 16)
 
 
+def corpus(ctx):
+    """deterministic repros of the three defects repaired in /repo (known_findings.d/C12.json, status fixed): the old behaviour is a VIOLATION"""
+    CAT, _, EM = S()
+    # afd292a: firm(discount_distance=None) means no discounting
+    f = xr.DataArray([[1.0, 2, 3], [2, 3, 4]], dims=["t", "x"])
+    o = xr.DataArray([2.0, 3.0], dims=["t"])
+    ref = core.call_impl(CAT.firm, f, o, 0.5, [2.0], [1.0], discount_distance=0, preserve_dims="all")
+    got = core.call_impl(CAT.firm, f, o, 0.5, [2.0], [1.0], discount_distance=None, preserve_dims="all")
+    case = {"fn": "firm", "fcst": [[1, 2, 3], [2, 3, 4]], "obs": [2, 3], "risk_parameter": 0.5, "thresholds": [2.0], "weights": [1.0], "discount_distance": None}
+    ctx.case(("corpus", "firm-discount-none"))
+    if not (ref[0] == "ok" and got[0] == "ok" and all(np.allclose(got[1][v].values, ref[1][v].values, equal_nan=True) for v in FVARS)):
+        ctx.violation("firm(discount_distance=None) must mean no discounting (regression of afd292a)", case, "same as discount_distance=0", str(got[1])[:120])
+    # 65c5778: severity_dim equal to the dimension name but not the same string object
+    dw = xr.DataArray([[1.0, 2, 3], [1, 2, 3], [1, 2, 3]], dims=["prob", "sev"], coords={"prob": [0.1, 0.3, 0.5], "sev": [0, 1, 2]})
+    f = xr.DataArray([[0.45, 0.22, 0.05], [0.65, 0.32, 0.09]], dims=["time", "sev"], coords={"time": [0, 1], "sev": [0, 1, 2]})
+    o = xr.DataArray([[1.0, 1, 0], [1, 0, 0]], dims=["time", "sev"], coords={"time": [0, 1], "sev": [0, 1, 2]})
+    sd = "".join(["se", "v"])
+    for kw in ({}, {"reduce_dims": "all"}, {"preserve_dims": ["time"]}, {"preserve_dims": "all"}):
+        ref = core.call_impl(EM.risk_matrix_score, f, o, dw, "sev", "prob", **kw)
+        got = core.call_impl(EM.risk_matrix_score, f, o, dw, sd, "prob", **kw)
+        ctx.case(("corpus", "rms-severity-dim-identity", str(kw)))
+        if not (ref[0] == "ok" and got[0] == "ok" and np.allclose(np.asarray(got[1]), np.asarray(ref[1]))):
+            ctx.violation("risk_matrix_score depends on the identity (not the value) of the severity_dim string (regression of 65c5778)",
+                          {"fn": "risk_matrix_score", "severity_dim": "''.join(['se','v'])", **kw}, str(ref[1])[:100], str(got[1])[:100])
+    # 73a32af: lowest_prob_index starts at n_prob + 1
+    M = [[0, 1], [0, 0], [0, 0]]
+    a = wfs_one(ctx, EM, M, [Fraction(1)], [Fraction(1, 4), Fraction(1, 2)], [0])
+    b = wfs_one(ctx, EM, M, [Fraction(1), Fraction(5)], [Fraction(1, 4), Fraction(1, 2)], [0])
+    if not (a[0] == "ok" and b[0] == "ok" and a[1].values.tolist() == [[1.0], [0.0]] and b[1].values.tolist() == [[1.0], [0.0]]):
+        ctx.violation("weights_from_warning_scaling drops the weight of a level reached only in a high row / depends on an unused assessment "
+                      "weight (regression of 73a32af)", {"scaling_matrix": M, "assessment_weights": [[1], [1, 5]], "prob_threshold_coords": [0.25, 0.5]},
+                      [[1.0], [0.0]], str((a[1], b[1]))[:200])
+    ctx.count("corpus_cases", 7)
+
+
 def run(ctx):
+    corpus(ctx)
     guard_boundaries(ctx)
     firm_grid(ctx)
     rms_grid(ctx)
